@@ -216,6 +216,18 @@ func (e *Env) lenTerm(x ssa.Value) lin.Term {
 			}
 		}
 	}
+	switch y := x.(type) {
+	case *ssa.Call:
+		if t, ok := e.inlineLen(y, 0); ok {
+			return t
+		}
+	case *ssa.Extract:
+		if c, isCall := y.Tuple.(*ssa.Call); isCall {
+			if t, ok := e.inlineLen(c, y.Index); ok {
+				return t
+			}
+		}
+	}
 	name := "len(" + e.valKey(x) + ")"
 	if !e.vars[name] {
 		e.vars[name] = true
@@ -420,8 +432,14 @@ func (e *Env) term(v ssa.Value) lin.Term {
 			e.p.Cfg.use("binary.BigEndian.UintN ∈ [0, 2^N-1], needs len ≥ N/8")
 			return t
 		}
-		if t, ok := e.inlineCall(x); ok {
+		if t, ok := e.inlineCall(x, 0); ok {
 			return t
+		}
+	case *ssa.Extract:
+		if c, isCall := x.Tuple.(*ssa.Call); isCall {
+			if t, ok := e.inlineCall(c, x.Index); ok {
+				return t
+			}
 		}
 	case *ssa.Phi:
 		t := e.fresh(v)
@@ -1131,41 +1149,68 @@ func (p *Prover) earlierLoad(ld *ssa.UnOp) *ssa.UnOp {
 	return best
 }
 
-// inlineCall: the integer result of a call of a small function of the same
-// package (an extracted helper with a single return) is the callee's return
-// term with the parameters replaced by the arguments; the facts that hold at
-// the callee's return come along, with the callee's other variables renamed
-// per call site.
-func (e *Env) inlineCall(x *ssa.Call) (lin.Term, bool) {
+// calleeView: for a call x of a small helper of the same package, the fact set
+// at the helper's unique (successful) return, that return, and the
+// substitution expressing the helper's parameters in the caller's terms. For a
+// helper whose last result is an error only the return with a nil error
+// counts, and the view is available only at points of the caller dominated by
+// the edge on which that error was tested to be nil (elsewhere nothing is
+// known about the other results).
+func (e *Env) calleeView(x *ssa.Call) (ce *Env, ret *ssa.Return, sub map[string]lin.Term, rename func(string) string, ok bool) {
 	g := x.Call.StaticCallee()
 	if g == nil || g.Pkg == nil || g.Pkg != e.fn.Pkg || g == e.fn || len(g.Blocks) == 0 || e.p.inlining[g] || len(e.p.inlining) >= 2 {
-		return lin.Term{}, false
+		return
 	}
-	if g.Signature.Results().Len() != 1 {
-		return lin.Term{}, false
+	res := g.Signature.Results()
+	if res.Len() == 0 {
+		return
 	}
-	if _, _, isInt := intRange(g.Signature.Results().At(0).Type(), e.p.Cfg.IntBits); !isInt {
-		return lin.Term{}, false
+	errLast := false
+	if n, isN := res.At(res.Len() - 1).Type().(*types.Named); isN && n.Obj().Pkg() == nil && n.Obj().Name() == "error" {
+		errLast = true
 	}
-	var ret *ssa.Return
 	n := 0
 	ssax.Instrs(g, func(in ssa.Instruction) {
-		if r, ok := in.(*ssa.Return); ok && in.Block().Comment != "recover" {
-			ret = r
-			n++
+		r, isR := in.(*ssa.Return)
+		if !isR || in.Block().Comment == "recover" || len(r.Results) != res.Len() {
+			return
 		}
+		if errLast {
+			c, isC := r.Results[len(r.Results)-1].(*ssa.Const)
+			if !isC || !c.IsNil() {
+				return
+			}
+		}
+		ret = r
+		n++
 	})
-	if n != 1 || len(ret.Results) != 1 {
-		return lin.Term{}, false
+	if n != 1 {
+		return
+	}
+	if errLast {
+		if res.Len() == 1 || !e.knownNilError(x, res.Len()-1) {
+			return
+		}
 	}
 	if e.p.inlining == nil {
 		e.p.inlining = map[*ssa.Function]bool{}
 	}
-	e.p.inlining[g] = true
-	defer delete(e.p.inlining, g)
-	ce := e.p.EnvAt(ret)
-	rt := ce.Term(ret.Results[0])
-	sub := map[string]lin.Term{}
+	func() {
+		// the guard covers the analysis of the callee only; the arguments below
+		// may themselves be results of the same helper (chained calls)
+		e.p.inlining[g] = true
+		defer delete(e.p.inlining, g)
+		ce = e.p.EnvAt(ret)
+		// force the terms of every result now, so that their side facts are in ce.Facts
+		for _, rv := range ret.Results {
+			if _, _, isInt := intRange(rv.Type(), e.p.Cfg.IntBits); isInt {
+				ce.Term(rv)
+			} else if isSliceOrString(rv.Type()) {
+				ce.lenTerm(rv)
+			}
+		}
+	}()
+	sub = map[string]lin.Term{}
 	for i, p := range g.Params {
 		if i >= len(x.Call.Args) {
 			break
@@ -1185,10 +1230,94 @@ func (e *Env) inlineCall(x *ssa.Call) (lin.Term, bool) {
 		}
 	}
 	prefix := "@" + x.Name() + "."
-	rename := func(n string) string { return prefix + n }
-	for _, f := range ce.Facts {
-		e.Facts = append(e.Facts, lin.Ineq{T: lin.Subst(f.T, sub, rename), Why: f.Why + " (in " + g.Name() + ")"})
-	}
+	rename = func(n string) string { return prefix + n }
+	e.importFacts(ce, sub, rename)
 	e.p.Cfg.use("result of a single-return helper of the package = its return expression over the arguments")
-	return lin.Subst(rt, sub, rename), true
+	return ce, ret, sub, rename, true
+}
+
+// importFacts brings the callee's facts (renamed) into e, each once.
+func (e *Env) importFacts(ce *Env, sub map[string]lin.Term, rename func(string) string) {
+	for _, f := range ce.Facts {
+		t := lin.Subst(f.T, sub, rename)
+		k := "fact:" + t.String()
+		if e.vars[k] {
+			continue
+		}
+		e.vars[k] = true
+		e.Facts = append(e.Facts, lin.Ineq{T: t, Why: f.Why + " (in " + ce.fn.Name() + ")"})
+	}
+}
+
+// knownNilError: the point of e is dominated by the edge on which result #idx
+// (an error) of call x was found to be nil.
+func (e *Env) knownNilError(x *ssa.Call, idx int) bool {
+	if e.at == nil || x.Referrers() == nil {
+		return false
+	}
+	for _, u := range *x.Referrers() {
+		ex, isEx := u.(*ssa.Extract)
+		if !isEx || ex.Index != idx {
+			continue
+		}
+		for _, ef := range dominatingEdges(e.at.Block()) {
+			bo, isB := ef.cond.(*ssa.BinOp)
+			if !isB || bo.X != ssa.Value(ex) {
+				continue
+			}
+			c, isC := bo.Y.(*ssa.Const)
+			if !isC || !c.IsNil() {
+				continue
+			}
+			if bo.Op == token.EQL && ef.taken || bo.Op == token.NEQ && !ef.taken {
+				return true
+			}
+		}
+	}
+	return false
+}
+
+// inlineCall: the integer result (#idx) of a call of a small function of the
+// same package (an extracted helper) is the callee's return term with the
+// parameters replaced by the arguments; the facts that hold at the callee's
+// return come along, with the callee's other variables renamed per call site.
+func (e *Env) inlineCall(x *ssa.Call, idx int) (lin.Term, bool) {
+	ce, ret, sub, rename, ok := e.calleeView(x)
+	if !ok || idx >= len(ret.Results) {
+		return lin.Term{}, false
+	}
+	if _, _, isInt := intRange(ret.Results[idx].Type(), e.p.Cfg.IntBits); !isInt {
+		return lin.Term{}, false
+	}
+	t := lin.Subst(ce.Term(ret.Results[idx]), sub, rename)
+	e.importFacts(ce, sub, rename)
+	return t, true
+}
+
+// inlineLen: len of the slice/string result (#idx) of a helper call.
+func (e *Env) inlineLen(x *ssa.Call, idx int) (lin.Term, bool) {
+	ce, ret, sub, rename, ok := e.calleeView(x)
+	if !ok || idx >= len(ret.Results) || !isSliceOrString(ret.Results[idx].Type()) {
+		return lin.Term{}, false
+	}
+	t := lin.Subst(ce.lenTerm(ret.Results[idx]), sub, rename)
+	e.importFacts(ce, sub, rename)
+	return t, true
+}
+
+// CalleeTerm expresses an integer value (or, with length, the len of a
+// slice/string value) of the helper called by x in the caller's terms.
+func (e *Env) CalleeTerm(x *ssa.Call, v ssa.Value, length bool) (lin.Term, bool) {
+	ce, _, sub, rename, ok := e.calleeView(x)
+	if !ok {
+		return lin.Term{}, false
+	}
+	var t lin.Term
+	if length {
+		t = lin.Subst(ce.lenTerm(v), sub, rename)
+	} else {
+		t = lin.Subst(ce.Term(v), sub, rename)
+	}
+	e.importFacts(ce, sub, rename)
+	return t, true
 }
